@@ -34,11 +34,18 @@ def sim_alloc(elem, c):
 NM, TM, MO, MN, CO, TC = ("sim::elem_nm<0>", "sim::elem_tm<0>", "sim::elem_mo<0>",
                           "sim::elem_mn<0>", "sim::elem_co<0>", "sim::elem_tc<0>")
 SW = "sim::elem_sw<0>"
+MA = "sim::elem_ma<0>"
+NC = "sim::elem_nc<0>"
 
 # --- core: every flavour over a plain stateful, non-propagating allocator
 for i, (fl, e) in enumerate([("NM", NM), ("TM", TM), ("MO", MO), ("MN", MN), ("CO", CO)]):
     add("core_" + fl, e, sim_alloc(e, cfg()), NSETS[i % len(NSETS)],
         packs=("core", "c17") if fl in ("NM", "TM", "MO") else ("core",))
+# mixed element traits: nothrow move construction + throwing move assignment; all-noexcept handle type
+add("core_MA", MA, sim_alloc(MA, cfg()), NSETS[3], packs=("core",))
+add("alloc_MA_110", MA, sim_alloc(MA, cfg(1, 1, 0)), NSETS[0], packs=("alloc",))
+add("core_NC", NC, sim_alloc(NC, cfg()), NSETS[4], packs=("core",))
+add("alloc_NC_011", NC, sim_alloc(NC, cfg(0, 1, 1)), NSETS[1], packs=("alloc",))
 # large inline capacities
 add("core_NM_bigN", NM, sim_alloc(NM, cfg()), (16, 33, 5), packs=("core",))
 add("core_TM_bigN", TM, sim_alloc(TM, cfg(1, 1, 1)), (24, 7, 40), packs=("core", "alloc"))
@@ -80,6 +87,10 @@ add("size_NM_u32m", NM, sim_alloc(NM, cfg(size_t="std::uint32_t", max_size=50)),
 add("size_TM_szm", TM, sim_alloc(TM, cfg(max_size=40)), (0, 1, 3), big=True, packs=("size",))
 add("size_B1_u8", "sim::elem_b1", sim_alloc("sim::elem_b1", cfg(size_t="std::uint8_t")), (0, 2, 5), big=True, packs=("size",))
 add("size_TC_u8", TC, sim_alloc(TC, cfg(size_t="std::uint8_t")), (1, 3, 0), big=True, packs=("size", "twin"))
+# 8/16-bit size_type with its own max_size(): more than 255 BYTES behind a position although the
+# element count fits the size_type (byte counts of the memmove/memcpy paths must not be narrowed)
+add("size_TC_u8m", TC, sim_alloc(TC, cfg(size_t="std::uint8_t", max_size=110)), (0, 2, 5), big=True, packs=("size", "twin"))
+add("size_TC_u16m", TC, sim_alloc(TC, cfg(size_t="std::uint16_t", max_size=300)), (2, 4, 8), big=True, packs=("size", "twin"))
 
 # --- twin: trivially copyable against non-trivial, same N sets as their NM twin
 add("twin_TC", TC, sim_alloc(TC, cfg()), NSETS[0], packs=("twin", "core", "c17"))
